@@ -541,6 +541,70 @@ theorem acquire_kept {i j : Inst} (hij : i ≠ j) (s : State) (u : Ups) (rid : I
           (fun f => setState_getState_ne f i j rid rq.2 hij) r ha)
     ⟨r, hr, rfl, rfl, rfl, rfl⟩
 
+/-! ### upstream events and leadership changes -/
+
+theorem updateUpstreamStateCondition_key (upc : Option Cond) (u : Ups) (sc : List Schema)
+    (h : ∀ c, upc = some c → c.upstream = u ∧ c.name = stateName u) :
+    (updateUpstreamStateCondition upc u sc).upstream = u ∧ (updateUpstreamStateCondition upc u sc).name = stateName u := by
+  unfold updateUpstreamStateCondition
+  cases upc with
+  | none => exact ⟨rfl, rfl⟩
+  | some c => exact h c rfl
+
+/-- an upstream event leaves every condition alone except the state condition of that upstream in its own store,
+    unless the upstream is gone (then `DeleteUpstream`). -/
+theorem handle_keeps_conds (s : State) (u : Ups) (r : Nat × Cond) (hr : r ∈ s.conds)
+    (hne : ¬(r.1 = shardOf u ∧ r.2.upstream = u ∧ (isListed s u = false ∨ r.2.name = stateName u))) :
+    r ∈ (handle shardOf s u).conds := by
+  unfold handle
+  simp only
+  split
+  · exact hr
+  · split
+    · exact hr
+    · split
+      · rename_i hnone
+        have hl : isListed s u = false := by
+          unfold isListed
+          rw [List.any_eq_false]
+          intro p hp hpu
+          have : (s.listed.find? (·.1 == u)).isSome = true := by
+            rw [List.find?_isSome]; exact ⟨p, hp, hpu⟩
+          cases hf : s.listed.find? (·.1 == u) with
+          | none => rw [hf] at this; cases this
+          | some x => rw [hf] at hnone; cases hnone
+        simp only [deleteUpstream, List.mem_filter]
+        refine ⟨hr, ?_⟩
+        cases h1 : (r.1 == shardOf u && r.2.upstream == u)
+        · rfl
+        · exfalso
+          simp only [Bool.and_eq_true, beq_iff_eq] at h1
+          exact hne ⟨h1.1, h1.2, Or.inl hl⟩
+      · rw [(syncFlowControl_frame _ _ _ _).2.1]
+        simp only
+        have hk := updateUpstreamStateCondition_key (getCond s (shardOf u) u (stateName u)) u ‹List Schema›
+          (fun c hc => (getCond_some s _ _ _ c hc).2)
+        apply mem_saveCond_of_ne _ _ _ _ hr
+        intro hk2
+        exact hne ⟨hk2.1, by rw [hk2.2.1]; exact hk.1, Or.inr (by rw [hk2.2.2]; exact hk.2)⟩
+
+theorem foldl_handle_keeps (r : Nat × Cond) (l : List (Ups × List Schema)) (hl : ∀ p ∈ l, shardOf p.1 ≠ r.1)
+    (a : State) (ha : r ∈ a.conds) : r ∈ (l.foldl (fun st p => handle shardOf st p.1) a).conds := by
+  induction l generalizing a with
+  | nil => exact ha
+  | cons x t ih =>
+    refine ih (fun p hp => hl p (by simp [hp])) _ ?_
+    exact handle_keeps_conds shardOf a x.1 r ha (fun h => hl x (by simp) h.1.symm)
+
+theorem foldl_dropStore_keeps (r : Nat × Cond) (l : List Nat) (hl : ∀ sh ∈ l, sh ≠ r.1)
+    (a : State) (ha : r ∈ a.conds) : r ∈ (l.foldl dropStore a).conds := by
+  induction l generalizing a with
+  | nil => exact ha
+  | cons x t ih =>
+    refine ih (fun p hp => hl p (by simp [hp])) _ ?_
+    simp only [dropStore, List.mem_filter]
+    exact ⟨ha, by simp [Ne.symm (hl x (by simp))]⟩
+
 /-! ### one step of a history, seen from a silent instance -/
 
 theorem step_noState {i : Inst} (s : State) (op : Op) (h : op.isBy i = false) (hs : NoState i s) :
